@@ -1206,8 +1206,11 @@ class BufferedWriter(IndexWriter):
     def reader(self, **kwargs):
         from whoosh.reading import MultiReader
 
-        reader = self.writer.reader()
+        # Take the on-disk reader and the in-memory reader under the lock so a
+        # commit in another thread can't move documents between the two (or
+        # swap the underlying writer) in between
         with self.lock:
+            reader = self.writer.reader()
             ramreader = self._get_ram_reader()
 
         # If there are in-memory docs, combine the readers
@@ -1231,20 +1234,24 @@ class BufferedWriter(IndexWriter):
         if self.period:
             self.timer.cancel()
 
+        # Hold the lock for the whole flush: documents added by other threads
+        # must end up either in this commit or in the new buffer, and readers
+        # must not see the moment where the buffer has been emptied but the
+        # documents are not on disk yet
         with self.lock:
             ramreader = self._get_ram_reader()
             self._make_ram_index()
 
-        if self.bufferedcount:
-            self.writer.add_reader(ramreader)
-        self.writer.commit(**self.commitargs)
-        self.bufferedcount = 0
+            if self.bufferedcount:
+                self.writer.add_reader(ramreader)
+            self.writer.commit(**self.commitargs)
+            self.bufferedcount = 0
 
-        if restart:
-            self.writer = self.index.writer(**self.writerargs)
-            if self.period:
-                self.timer = threading.Timer(self.period, self.commit)
-                self.timer.start()
+            if restart:
+                self.writer = self.index.writer(**self.writerargs)
+                if self.period:
+                    self.timer = threading.Timer(self.period, self.commit)
+                    self.timer.start()
 
     def add_reader(self, reader):
         # Pass through to the underlying on-disk index
